@@ -512,7 +512,7 @@ var matchASCII = harness.Register(&harness.Facet[matchCase]{
 	Name:     "match-ascii",
 	Rule:     matchRule + "; subject alphabet a b c A B C 1 _ space - . \\n \\t; \\s \\S allowed",
 	Quick:    7000,
-	Thorough: 200000,
+	Thorough: 150000,
 	Gen:      genMatchCase(false),
 	Check:    checkMatch,
 })
@@ -521,7 +521,7 @@ var matchUnicode = harness.Register(&harness.Facet[matchCase]{
 	Name:     "match-unicode",
 	Rule:     matchRule + "; subject alphabet extended with é É U+2028 CR and the astral U+1F600 (2 units) to expose byte/rune/unit offset mistakes; pattern may name é É U+2028 (raw or escaped)",
 	Quick:    5000,
-	Thorough: 120000,
+	Thorough: 90000,
 	Gen:      genMatchCase(true),
 	Check:    checkMatch,
 })
@@ -702,7 +702,7 @@ var translate = harness.Register(&harness.Facet[transCase]{
 	Name:     "translate",
 	Rule:     "rapid: a portable-subset pattern, with probability 0.6 damaged by one or two source-level mutations (insert/delete/duplicate a syntax character, unbalanced ( ) [, dangling or doubled quantifier, {2,1}, [b-a], trailing backslash, look-ahead, back-reference, Go-only group syntax (?i) (?P<n>…), quantified assertion) and with probability 0.2 given invalid flags (unknown or repeated letter); the independent 15.10.1 parser classifies the result: valid => constructor must accept, exec must agree with the model; unsupported/invalid => constructor/literal must throw SyntaxError; lenient (ES5.1 rejects, web grammar accepts) => either; also parser.TransformRegExp(src) without error => regexp.Compile succeeds. non-trivial = mutated, invalid flags, or >= 2 construct kinds; distinct by (source, flags, form, subject)",
 	Quick:    7000,
-	Thorough: 150000,
+	Thorough: 120000,
 	Gen: func(t *rapid.T) transCase {
 		form := rapid.SampledFrom(forms).Draw(t, "form")
 		tree := m10.GenTree(t, m10.GenOpts{Unicode: false, Space: true, RawNewline: form != "lit" && form != "evallit", EmptyClass: true})
